@@ -284,6 +284,8 @@ def step (st : St) (ts : List String) : St × String :=
     | some b => qry st fun r => showO (r.concat b) | none => (st, "bad-op")
   | ["concatc", c] => match byte? c with
     | some c => qry st fun r => showO (r.concat [c]) | none => (st, "bad-op")
+  | ["rconcatc", c] => match byte? c with
+    | some c => qry st fun r => showO (Rep.rconcatChar c r) | none => (st, "bad-op")
   | ["rconcat", h] => match unhex h with
     | some b => qry st fun r => showO (Rep.rconcat b r) | none => (st, "bad-op")
   | ["split", h] => match unhex h with
